@@ -13,7 +13,7 @@
 (* behaviour of the fine-grained model although every property conjunct    *)
 (* holds) and are not violations.                                          *)
 (***************************************************************************)
-EXTENDS CasSteps, Json, IOUtils
+EXTENDS CasDamage, Json, IOUtils
 
 Lines == ndJsonDeserialize(IOEnv.TRACE)
 
@@ -213,18 +213,10 @@ FaultFails(f2, ln) ==
 (* directory); P = longest prefix of the logged un-checkpointed records    *)
 (* that is still intact in the damaged directory.                          *)
 (***************************************************************************)
-RECURSIVE ApplyRecs(_, _, _)
-ApplyRecs(x, recs, snapVer) ==
-    IF recs = <<>> THEN x
-    ELSE ApplyRecs(IF Head(recs).v > snapVer THEN ApplyOp(x, Head(recs).op) ELSE x, Tail(recs), snapVer)
-RECURSIVE IntactPrefix(_, _)
-IntactPrefix(B, present) ==
-    IF B = <<>> \/ Head(B) \notin present THEN <<>> ELSE <<Head(B)>> \o IntactPrefix(Tail(B), present)
+\* (ApplyRecs, IntactPrefix, PrefixState: module CasDamage, shared with the model check MCDamage)
 DamageFails(base, ln) ==
     LET d  == DiskOfJson(ln.rec.disk)
-        B  == AllRecs(base.segs)
-        P  == IntactPrefix(B, SeqToSet(AllRecs(d.segs)))
-        ex == ApplyRecs(IxOf(base.snap.idx), P, base.snap.ver).idx
+        ex == PrefixState(base, d)
     IN  UNION {
           Fail(ln.rec.res.val # "panic", "C10:panic"),
           \* (blobs that later operations reclaimed cannot come back with a shortened log: only the
